@@ -60,16 +60,17 @@ class TracepointWindow:
         :param ts: time in ms
         :return: true, if the time is within the configured window, else false
         """
+        # (0 means not configured; a negative start is before any time we can see, a negative end is not an end)
         # no window configured - return True
-        if self._start == 0 and self._end == 0:
+        if self._start <= 0 and self._end <= 0:
             return True
 
         # only end configured - return if now is less than end
-        if self._start == 0 and self._end > 0:
+        if self._start <= 0:
             return ts <= self._end
 
         # only start configured - return if now is more than start
-        if self._start > 0 and self._end == 0:
+        if self._end <= 0:
             return self._start <= ts
 
         # if both then check both
